@@ -187,11 +187,17 @@ def _pairs(ctx):
     xa, ya = get_geostationary_angle_extent(fine)
     hh = get_geostationary_height(fine.crs)
     rr = ctx.rng
-    for k in range(6 if ctx.quick else 40):
-        th_ = rr.uniform(0, 2 * np.pi)
-        f = rr.uniform(0.9945, 0.9965)
+    for k in range(12 if ctx.quick else 60):
+        if k % 2:
+            th_ = rr.uniform(0, 2 * np.pi)
+            f = rr.uniform(0.9945, 0.9965)
+            half = rr.choice([6000.0, 9000.0])
+        else:
+            # where the limb runs along a grid axis the bounding box of (target within the disk polygon) is what decides the slices
+            th_ = rr.choice([0.0, 0.5, 1.0, 1.5]) * np.pi + np.radians(rr.uniform(-3.0, 3.0))
+            f = rr.uniform(0.9975, 0.9982)
+            half = rr.choice([6000.0, 7500.0])
         cx_, cy_ = f * xa * hh * np.cos(th_), f * ya * hh * np.sin(th_)
-        half = rr.choice([6000.0, 9000.0])
         n_ = rr.choice([8, 12])
         out.append(("geos_fine", fine, f"t_geos_limb_{np.degrees(th_):.1f}deg", kc.mk_area(geos, n_, n_, (cx_ - half, cy_ - half, cx_ + half, cy_ + half))))
         lo_, la_ = fine.get_lonlat_from_projection_coordinates(cx_, cy_)
